@@ -46,7 +46,10 @@ class Sampling(ApiImmut):
         v = parse(['quantum_state', 'measure_list', 'number_of_samples', 'plot_tf'], {'plot_tf': False}, args, kwargs)
         psi_t, ml, N = v['quantum_state'], [int(i) for i in v['measure_list']], int(v['number_of_samples'])
         n = psi_t.order
-        if n > 12 or not tt_consistent(psi_t)[0]:
+        if not tt_consistent(psi_t)[0]:
+            return
+        if n > 12:
+            self.post_large(c, psi_t, ml, N, res)
             return
         try:
             samples, freqs = res
@@ -121,6 +124,94 @@ class Sampling(ApiImmut):
                     lim = float(stats.chi2.isf(1e-12, df))
                 c.check(self.api, 'frequencies_converge_to_born_marginal', chi2 <= lim and not bad_zero, tags, {'chi2': chi2, 'limit': lim, 'df': df, 'N': N}, prop=P)
         c.sig(self.api, n, tuple(sites), pos, max(psi_t.ranks), 'N>=5000' if N >= 5000 else 'N<5000')
+
+
+def _large_register(self, c, psi_t, ml, N, res):
+    """registers too large for a dense state vector: the conditional Born probabilities are obtained from the cores by an own
+    transfer-matrix contraction (left environment of the fixed prefix, right environments with all remaining sites traced out),
+    O(N n r^4); the prediction from the captured uniform variates must again be met exactly"""
+    n = psi_t.order
+    k = len(ml)
+    sites = sorted(ml)
+    cores = [np.asarray(cr)[:, :, 0, :] for cr in psi_t.cores]  # (r, 2, r')
+    if max(cr.shape[0] for cr in cores) > 4:
+        return
+    try:
+        samples, freqs = res
+    except Exception:
+        c.check(self.api, 'returns_pair', False, prop=P)
+        return
+    samples, freqs = np.asarray(samples), np.asarray(freqs, dtype=float)
+    tags = ['large_register', 'measured>53' if k > 53 else 'measured<=53', 'ranks>1' if max(psi_t.ranks) > 1 else 'product_state']
+    ok_shape = samples.ndim == 2 and samples.shape[1] == k and len(freqs) == samples.shape[0]
+    c.check(self.api, 'result_shapes', ok_shape, tags, {'samples': list(samples.shape), 'freqs': list(freqs.shape)}, prop=P)
+    if not ok_shape:
+        return
+    c.check(self.api, 'frequencies_sum_to_one', abs(float(np.sum(freqs)) - 1.0) <= 1e-12, tags, {'sum': float(np.sum(freqs))}, prop=P)
+    c.check(self.api, 'bit_strings_distinct', len({tuple(r) for r in samples.tolist()}) == samples.shape[0], tags, prop=P)
+    c.check(self.api, 'entries_are_bits', bool(np.all((samples == 0) | (samples == 1))), tags, prop=P)
+    # right environments with everything traced out: R[i] for sites i..n-1
+    R = [None] * (n + 1)
+    R[n] = np.ones((1, 1), dtype=complex)
+    for i in range(n - 1, -1, -1):
+        A = cores[i]
+        R[i] = sum(A[:, b, :] @ R[i + 1] @ A[:, b, :].conj().T for b in (0, 1))
+    total = float(np.real(R[0][0, 0]))
+    if abs(total - 1) > 1e-9:
+        c.skip('sampling_state_not_normalised_right_orthonormal')
+        return
+    U = [d for d in DRAWN if d.shape == (N, k)]
+    if len(U) != 1:
+        c.skip('sampling_variates_not_captured')
+        return
+    U = U[0]
+    pred = np.zeros((N, k))
+    tie = False
+    cache = {}
+    for s_ in range(N):
+        L = np.ones((1, 1), dtype=complex)  # left environment of the prefix fixed so far (unmeasured sites traced out)
+        pos = 0
+        key = ()
+        for j, site in enumerate(sites):
+            ck = key
+            if ck in cache:
+                L, pos, p0, p1 = cache[ck]
+            else:
+                for i in range(pos, site):  # trace out the unmeasured sites in between
+                    A = cores[i]
+                    L = sum(A[:, b, :].T @ L @ A[:, b, :].conj() for b in (0, 1))
+                A = cores[site]
+                cand = [A[:, b, :].T @ L @ A[:, b, :].conj() for b in (0, 1)]
+                p0, p1 = [float(np.real(np.sum(cand[b] * R[site + 1].T))) for b in (0, 1)]
+                cache[ck] = (L, site, p0, p1)
+                pos = site
+            tot = p0 + p1
+            if tot <= 0:
+                tie = True
+                break
+            q = p0 / tot
+            if abs(U[s_, j] - q) < 1e-9:
+                tie = True
+                break
+            bit = 1 if U[s_, j] > q else 0
+            pred[s_, j] = bit
+            A = cores[site]
+            Lp = cache[ck][0]
+            L = A[:, bit, :].T @ Lp @ A[:, bit, :].conj()
+            pos = site + 1
+            key = key + (bit,)
+        if tie:
+            break
+    if tie:
+        c.skip('sampling_variate_at_decision_boundary')
+        return
+    ws, wc = np.unique(pred, return_counts=True, axis=0)
+    good = ws.shape == samples.shape and np.array_equal(ws, samples) and np.allclose(wc / N, freqs, rtol=0, atol=1e-12)
+    c.check(self.api, 'equals_inverse_cdf_sampling_of_born_marginal', bool(good), tags, {'n': n, 'measured': len(sites), 'N': N, 'got_rows': int(samples.shape[0]), 'want_rows': int(ws.shape[0])}, prop=P)
+    c.sig(self.api, 'large', n // 10, k > 53, max(psi_t.ranks))
+
+
+Sampling.post_large = _large_register
 
 
 def install():
